@@ -140,6 +140,12 @@ func (c *Client) validateVirtualChannelSettlementProposal(
 		return errors.New("virtual channel not allocated")
 	}
 
+	// An update that is accepted without asking the user must not close the
+	// channel.
+	if prop.State.IsFinal {
+		return errors.New("settlement update must not be final")
+	}
+
 	// Assert not contained after
 	_, containedAfter := prop.State.SubAlloc(prop.Final.Params.ID())
 	if containedAfter {
